@@ -173,19 +173,90 @@ def _rename_by_first_use(body: t.List[ast.stmt]) -> t.List[ast.stmt]:
     return [R().visit(s) for s in body]
 
 
+def _path_signatures(repo: Repo, f: Func, names: t.Dict[str, str]) -> t.List[t.Tuple[t.Any, ...]]:
+    """Every control-flow path of f as the sequence of its decisions, calls, stores and its exit, over the
+    parameters (named by position), with local names composed away, awaits dropped, the named counterparts
+    (`lookup_dc` / `async_lookup_dc` ...) identified and constant sub-expressions folded."""
+    from .pathsum import Summary, fact
+
+    summ = Summary(f, prune=True)
+    pmap = {p: f"p{i}" for i, p in enumerate(f.params)}
+
+    class R(ast.NodeTransformer):
+        def visit_Name(self, node: ast.Name) -> ast.AST:
+            if node.id in pmap:
+                return ast.Name(id=pmap[node.id], ctx=node.ctx)
+            if node.id in names:
+                return ast.Name(id=names[node.id], ctx=node.ctx)
+            ok, v = repo.try_fold(node, f.mod)
+            if ok and isinstance(v, (int, str, bytes, bool, type(None))):
+                return ast.Constant(value=v)
+            return node
+
+        def visit_Attribute(self, node: ast.Attribute) -> ast.AST:
+            txt = unparse(node)
+            if txt in names:
+                return ast.parse(names[txt], mode="eval").body
+            if not any(isinstance(n, ast.Name) and n.id in pmap for n in ast.walk(node)) and not any(isinstance(n, ast.Call) for n in ast.walk(node)):
+                ok, v = repo.try_fold(node, f.mod)
+                if ok and isinstance(v, (int, str, bytes, bool, type(None))):
+                    return ast.Constant(value=v)
+            return self.generic_visit(node)
+
+        def visit_Subscript(self, node: ast.Subscript) -> ast.AST:
+            if not any(isinstance(n, (ast.Call,)) for n in ast.walk(node)) and not any(isinstance(n, ast.Name) and n.id in pmap for n in ast.walk(node)):
+                ok, v = repo.try_fold(node, f.mod)
+                if ok and isinstance(v, (int, str, bytes, bool, type(None))):
+                    return ast.Constant(value=v)
+            return self.generic_visit(node)
+
+        def visit_Call(self, node: ast.Call) -> ast.AST:
+            if unparse(node.func) == "self._wrap_sync" and node.args:
+                node = ast.Call(func=node.args[0], args=node.args[1:], keywords=node.keywords)
+            return self.generic_visit(node)
+
+    def txt(tree: t.Optional[ast.AST]) -> str:
+        if tree is None:
+            return ""
+        return unparse(ast.fix_missing_locations(R().visit(copy.deepcopy(tree))))
+
+    sigs = []
+    for ps in summ.paths:
+        items: t.List[t.Tuple[t.Any, ...]] = []
+        for e in ps.events:
+            if e.kind == "cond":
+                items.append(("if", fact(ast.parse(txt(e.tree), mode="eval").body, bool(e.pol))))
+            elif e.kind == "call":
+                items.append(("call", txt(e.tree)))
+            else:
+                items.append(("store", txt(e.target), txt(e.tree)))
+        items.append((ps.exit, txt(ps.value)))
+        sigs.append(tuple(items))
+    return sorted(set(sigs))
+
+
 def diff(repo: Repo, a: Func, b: Func, names_a: t.Optional[t.Dict[str, str]] = None, names_b: t.Optional[t.Dict[str, str]] = None) -> t.Optional[t.Tuple[str, str, int]]:
-    """None when the twins agree, else (statement of a, statement of b, index)."""
-    na = _rename_by_first_use(normalise(repo, a, names_a))
-    nb = _rename_by_first_use(normalise(repo, b, names_b))
-    for i, (x, y) in enumerate(zip(na, nb)):
-        if ast.dump(x) != ast.dump(y):
-            # descend into compound statements to name the innermost differing statement
-            return _first_inner_diff(x, y, i)
-    if len(na) != len(nb):
-        longer, which = (na, "first") if len(na) > len(nb) else (nb, "second")
-        extra = unparse(longer[min(len(na), len(nb))])
-        return (extra if which == "first" else "<nothing>", extra if which == "second" else "<nothing>", min(len(na), len(nb)))
-    return None
+    """None when the twins agree path by path (same decisions, calls with the same arguments in the same order,
+    same stores, same result), else (what a does, what b does, index of the first differing step)."""
+    sa_, sb_ = _path_signatures(repo, a, names_a or {}), _path_signatures(repo, b, names_b or {})
+    if sa_ == sb_:
+        return None
+    only_a = [x for x in sa_ if x not in sb_]
+    only_b = [x for x in sb_ if x not in sa_]
+    if only_a and only_b:
+        # the closest pair: longest common prefix
+        best = (-1, only_a[0], only_b[0])
+        for x in only_a[:20]:
+            for y in only_b[:20]:
+                k = 0
+                while k < min(len(x), len(y)) and x[k] == y[k]:
+                    k += 1
+                if k > best[0]:
+                    best = (k, x, y)
+        k, x, y = best
+        return (" ".join(map(str, x[k])) if k < len(x) else "<path ends>", " ".join(map(str, y[k])) if k < len(y) else "<path ends>", k)
+    extra = (only_a or only_b)[0]
+    return (" ".join(map(str, extra[-1])) if only_a else "<no such path>", " ".join(map(str, extra[-1])) if only_b else "<no such path>", len(extra) - 1)
 
 
 def _first_inner_diff(x: ast.stmt, y: ast.stmt, i: int) -> t.Tuple[str, str, int]:
